@@ -298,6 +298,11 @@ func VerifC08sign() {
 	fault := ndConcrete(verifChoice("fault", 3))
 	e1 := &Evidence{Claims: c}
 	e2 := &Evidence{Claims: c}
+	if ndBool("attach.valid.then.mutate") {
+		// the claims object was valid when it was attached through SetClaims and is changed
+		// afterwards through the pointer the caller still holds
+		e1 = c08attachThenMutate(c)
+	}
 	t1, err1 := e1.ValidateAndSign(w.signer(0, fault))
 	t2, err2 := e2.Sign(w.signer(0, fault))
 	ndAssert("c08-sign-gate-fails-iff-invalid-or-sibling-fails", (err1 != nil) == (!valid || err2 != nil))
@@ -334,4 +339,33 @@ func VerifC08cose() {
 	}
 	ndCover("c08-cose-accepts", err1 == nil)
 	ndCover("c08-cose-rejects-invalid", err1 != nil && err2 == nil && c08onlyLifecycleWrong(ev2.Claims))
+}
+
+// c08attachThenMutate: attach a VALID claims object with SetClaims, then overwrite that same
+// object in place with the (arbitrary) content of c.
+func c08attachThenMutate(c IClaims) *Evidence {
+	e := &Evidence{}
+	switch src := c.(type) {
+	case *P1Claims:
+		verifGenPfx = "v."
+		v := genP1Claims(0, 4)
+		verifGenPfx = ""
+		ndAssume(v.specValid())
+		if e.SetClaims(v.c) != nil {
+			panic(verifAbort{"valid claims rejected"})
+		}
+		*v.c = *src
+		verifSetLabel(v.c, verifLabelOf(c))
+	case *P2Claims:
+		verifGenPfx = "v."
+		v := genP2Claims(1, 4, 1)
+		verifGenPfx = ""
+		ndAssume(v.specValid())
+		if e.SetClaims(v.c) != nil {
+			panic(verifAbort{"valid claims rejected"})
+		}
+		*v.c = *src
+		verifSetLabel(v.c, verifLabelOf(c))
+	}
+	return e
 }
